@@ -252,10 +252,29 @@ fn row(view: &str, method: &str) -> Option<&'static Row> {
     rows().iter().find(|r| r.view == view && r.method == method)
 }
 
+/// the argument the `custom!` lines pass for the field-name parameter of a method (mirrored by
+/// `harnessArg` in lean/Deb822Verif/Driver/Typed.lean)
+fn harness_arg(view: &str, method: &str) -> Option<&'static str> {
+    match (view, method) {
+        ("apt.Package", "tags") | ("apt.Package", "set_tags") => Some("Tag"),
+        ("dep3.PatchHeader", "set_vendor_bug") => Some("Debian"),
+        _ => None,
+    }
+}
+
+/// instantiate a name template `pre{param}post`
+fn inst_name(template: &str, arg: Option<&str>) -> String {
+    match (template.find('{'), template.find('}'), arg) {
+        (Some(a), Some(b), Some(arg)) if a < b => format!("{}{}{}", &template[..a], arg, &template[b + 1..]),
+        _ => template.to_string(),
+    }
+}
+
 fn show_row(r: &Row) -> String {
     let shape = match r.tag.as_str() {
         "typed" => format!("typed:{}", r.ty),
         "list" => format!("list:{}:{}:{}", r.sep, ebool(r.trim), r.ty),
+        "filterParaWithout" => format!("filterParaWithout:{}", r.ty),
         t => t.to_string(),
     };
     format!(
@@ -1215,6 +1234,13 @@ pub fn handle(op: &str, a: &[&str]) -> Option<Resp> {
             if r.tag == "opaque" || r.names.is_empty() {
                 return Some(Resp::ok(obs));
             }
+            let arg = harness_arg(view, method);
+            let templ = r.names.iter().any(|n| n.contains('{'));
+            if templ && arg.is_none() {
+                return Some(Resp::with(obs, Some("name template without a harness argument".to_string())));
+            }
+            let inst = Row { names: r.names.iter().map(|n| inst_name(n, arg)).collect(), dflt: inst_name(&r.dflt, arg), ..r.clone() };
+            let r = &inst;
             let mut fail = None;
             if r.kind == "set" {
                 // the real setter on a paragraph without the field: exactly the extracted name appears
@@ -1557,8 +1583,9 @@ pub fn generate_c15(tier: &str, seed: u64, out: &mut Out) {
         if g.names.is_empty() {
             continue;
         }
+        let gnames: Vec<String> = g.names.iter().map(|n| inst_name(n, harness_arg(a.view, &g.method))).collect();
         for raw in raw_texts(g) {
-            for n in &g.names {
+            for n in &gnames {
                 let (skel, _) = skeleton(a.view, "");
                 let doc_idx = if skel.contains(&format!("\n{}:", n)) || skel.starts_with(&format!("{}:", n)) {
                     // the skeleton's own field is the one under test: replace its value
@@ -1580,8 +1607,8 @@ pub fn generate_c15(tier: &str, seed: u64, out: &mut Out) {
                 }
                 out.req("acc.get", &args);
             }
-            if g.names.len() == 2 {
-                let both = format!("{}{}", field_text(&g.names[1], "alt value"), field_text(&g.names[0], &raw));
+            if gnames.len() == 2 {
+                let both = format!("{}{}", field_text(&gnames[1], "alt value"), field_text(&gnames[0], &raw));
                 let (doc, idx) = skeleton(a.view, &both);
                 out.req("acc.get", &[a.view.to_string(), a.name().to_string(), es(&doc), idx.to_string()]);
             }
@@ -1590,7 +1617,7 @@ pub fn generate_c15(tier: &str, seed: u64, out: &mut Out) {
         let (doc, idx) = skeleton(a.view, "Aaa: 1\n");
         out.req("acc.get", &[a.view.to_string(), a.name().to_string(), es(&doc), idx.to_string()]);
     }
-    // opaque getters: Source::vcs, PatchHeader::bugs, Package::tags
+    // scanning getters: Source::vcs, PatchHeader::bugs; Package::tags with its argument
     for doc in [
         "Source: a\nVcs-Git: https://example.com/a.git\n",
         "Source: a\nVcs-Browser: https://example.com/a\nVcs-Git: https://example.com/a.git -b main [sub]\n",
